@@ -173,7 +173,7 @@ pub fn case(t: &mut Tape, ctx: &CaseCtx) -> CaseResult {
 pub fn run(mut run: Run) -> i32 {
     run.replay_committed(&case);
     run.random("builder level", &[Tape::encode_choice(0, 2)], run.n(200_000, 3_000_000), 120, &case);
-    run.random("wire level (simulated histories)", &[Tape::encode_choice(1, 2)], run.n(20_000, 400_000), 400, &case);
+    run.random("wire level (simulated histories)", &[Tape::encode_choice(1, 2)], run.n(60_000, 600_000), 400, &case);
     run.finish(
         RULE,
         500,
